@@ -168,7 +168,9 @@ class Bundle:
         # PackInflater resolves OFS_DELTA/REF_DELTA entries against the rest
         # of this pack; iterating pack_data directly skips them; see
         # https://github.com/jelmer/dulwich/issues/2312.
-        for git_obj in PackInflater.for_pack_data(self.pack_data):
+        # Resolve the whole pack before adding anything: a pack that fails
+        # half way through must not leave its first objects behind.
+        for git_obj in list(PackInflater.for_pack_data(self.pack_data)):
             object_store.add_object(git_obj)
             count += 1
 
